@@ -1,12 +1,12 @@
 SPECIFICATION GenSpec
 CONSTANTS
   Callers <- One
-  MaxCalls = 4
+  MaxCalls = 6
   Ops <- OpsAll
-  Inject <- InjAll
+  Inject <- InjSmall
   Exclusive = TRUE
   Mut = "none"
-  InitSet <- InitAll
+  InitSet <- InitSmall
 VIEW GenView
 INVARIANTS Emit
 CHECK_DEADLOCK FALSE
